@@ -142,6 +142,44 @@ Definition off_str (neg : bool) (hh mm : Z) : str :=
 Definition off_seconds (neg : bool) (hh mm : Z) : Z :=
   ((if neg then -1 else 1) * (hh * 3600 + mm * 60))%Z.
 
+(** YYYY-MM-DDThh:mm (no seconds). *)
+Definition w3c_min (t : datetime) : str :=
+  w3c_date (dt_year t) (dt_month t) (dt_day t) ++ c_T :: pad2 (dt_hour t) ++ c_colon :: pad2 (dt_minute t).
+
+(** What may follow a time: nothing, Z, or a signed hh:mm designator. *)
+Inductive zone := ZNone | ZUtc | ZOff (neg : bool) (hh mm : Z).
+Definition zone_str (z : zone) : str :=
+  match z with ZNone => [] | ZUtc => [c_Z] | ZOff n h m => off_str n h m end.
+Definition zone_seconds (z : zone) : Z :=
+  match z with ZOff n h m => off_seconds n h m | _ => 0%Z end.
+Definition zone_ok (z : zone) : Prop :=
+  match z with ZOff _ h m => (0 <= h <= 99)%Z /\ (0 <= m <= 99)%Z | _ => True end.
+
+(** The three time granularities of W3CDTF: minutes, seconds, seconds with a decimal fraction. *)
+Inductive timeform := TMin | TSec | TFrac (f : str).
+Definition time_text (g : timeform) (t : datetime) : str :=
+  match g with
+  | TMin => w3c_min t
+  | TSec => w3c_full t
+  | TFrac f => w3c_full t ++ 46%N :: f
+  end.
+Definition form_ok (g : timeform) (t : datetime) : Prop :=
+  match g with
+  | TMin => dt_second t = 0%Z
+  | TSec => True
+  | TFrac f => f <> [] /\ forallb is_digit f = true
+  end.
+
+(** The UTC wall clock of local time [t] in zone [z] (nothing and Z: as written), as Python
+    computes it: OverflowError outside years 1..9999. *)
+Definition utc_of (t : datetime) (z : zone) : res datetime :=
+  match z with
+  | ZOff n h m =>
+      let r := add_seconds t (- off_seconds n h m) in
+      if in_py_range r then Ok r else Err OverflowErr
+  | _ => Ok t
+  end.
+
 (** ---- digit characters ---- *)
 
 Lemma digit_char_is_digit v : (0 <= v <= 9)%Z -> is_digit (digit_char v) = true.
@@ -184,130 +222,7 @@ Proof.
   f_equal. unfold pad4, dval. cbn [fold_left]. rewrite !dval_digit_char by lia. lia.
 Qed.
 
-(** glibc %Y for four-digit years. *)
-Lemma ddf_lt f n acc : (n < 10)%N -> dec_digits_fuel (S f) n acc = (48 + n mod 10)%N :: acc.
-Proof. intros H. cbn [dec_digits_fuel]. destruct (N.ltb_spec n 10); [reflexivity|lia]. Qed.
 
-Lemma ddf_ge f n acc : (10 <= n)%N ->
-  dec_digits_fuel (S f) n acc = dec_digits_fuel f (n / 10)%N ((48 + n mod 10)%N :: acc).
-Proof. intros H. cbn [dec_digits_fuel]. destruct (N.ltb_spec n 10); [lia|reflexivity]. Qed.
-
-Lemma show_year_pad4 y : (1000 <= y <= 9999)%Z -> show_year y = pad4 y.
-Proof.
-  intros H. unfold show_year, dec_of_N.
-  set (n := Z.to_N y). assert (Hn : (1000 <= n <= 9999)%N) by lia.
-  assert (Hs : (10 <= N.size n)%N).
-  { destruct (N.le_gt_cases (N.size n) 9) as [L|L]; [|lia].
-    pose proof (N.size_gt n) as G.
-    pose proof (N.pow_le_mono_r 2 (N.size n) 9 ltac:(discriminate) L) as P.
-    change (2 ^ 9)%N with 512%N in P. lia. }
-  destruct (N.to_nat (N.size n)) as [|[|[|k]]] eqn:E; try lia.
-  assert (Q1 : (100 <= n / 10 <= 999)%N) by lia.
-  assert (Q2 : (10 <= n / 10 / 10 <= 99)%N) by lia.
-  assert (Q3 : (1 <= n / 10 / 10 / 10 <= 9)%N) by lia.
-  rewrite ddf_ge by lia. rewrite ddf_ge by lia. rewrite ddf_ge by lia. rewrite ddf_lt by lia.
-  unfold pad4, digit_char. subst n.
-  repeat (f_equal; try lia).
-Qed.
-
-(** ---- the strptime matcher ---- *)
-
-Fixpoint first_alt (al : list (list cc)) (s : str) : option (str * str) :=
-  match al with
-  | [] => None
-  | a :: al' => match match_alt a s with Some x => Some x | None => first_alt al' s end
-  end.
-
-Lemma try_alts_first k al s cap r0 caps r :
-  first_alt al s = Some (cap, r0) -> k r0 = Some (caps, r) ->
-  try_alts k al s = Some (cap :: caps, r).
-Proof.
-  induction al as [|a al IH]; cbn [first_alt try_alts]; [discriminate|].
-  destruct (match_alt a s) as [[c0 r1]|].
-  - intros E K. inversion E; subst. rewrite K. reflexivity.
-  - auto.
-Qed.
-
-Lemma match_alt_app a : forall s rest, (length a <= length s)%nat ->
-  match_alt a (s ++ rest) =
-  match match_alt a s with Some (cap, r') => Some (cap, r' ++ rest) | None => None end.
-Proof.
-  induction a as [|k a IH]; intros s rest L.
-  - reflexivity.
-  - destruct s as [|c s]; [cbn in L; lia|]. cbn [match_alt app].
-    destruct (cc_match k c); [|reflexivity].
-    rewrite IH by (cbn in L; lia).
-    destruct (match_alt a s) as [[cap r']|]; reflexivity.
-Qed.
-
-Lemma first_alt_app al s rest :
-  forallb (fun a => (length a <=? length s)%nat) al = true ->
-  first_alt al (s ++ rest) =
-  match first_alt al s with Some (cap, r') => Some (cap, r' ++ rest) | None => None end.
-Proof.
-  induction al as [|a al IH]; cbn [first_alt forallb]; [reflexivity|].
-  intros H. apply andb_true_iff in H as [H1 H2].
-  rewrite match_alt_app by (apply Nat.leb_le; auto).
-  destruct (match_alt a s) as [[cap r']|]; auto.
-Qed.
-
-(** A two-character group value [v] is taken whole by the first alternative that matches. *)
-Definition field2_ok (alts : list (list cc)) (v : Z) : bool :=
-  forallb (fun a => (length a <=? 2)%nat) alts &&
-  match first_alt alts (pad2 v) with
-  | Some (cap, []) => str_eqb cap (pad2 v)
-  | _ => false
-  end.
-
-Lemma match_field2 alts v p' rest caps r :
-  field2_ok alts v = true -> match_pat p' rest = Some (caps, r) ->
-  match_pat (IField alts :: p') (pad2 v ++ rest) = Some (pad2 v :: caps, r).
-Proof.
-  unfold field2_ok. intros H K. apply andb_true_iff in H as [H1 H2].
-  cbn [match_pat]. apply try_alts_first with (r0 := rest); auto.
-  rewrite first_alt_app by exact H1.
-  destruct (first_alt alts (pad2 v)) as [[cap [|x r']]|]; try discriminate.
-  apply str_eqb_eq in H2. subst. reflexivity.
-Qed.
-
-Lemma range_check (f : Z -> bool) lo n :
-  forallb (fun i => f (lo + Z.of_nat i)%Z) (seq 0 n) = true ->
-  forall v, (lo <= v < lo + Z.of_nat n)%Z -> f v = true.
-Proof.
-  intros H v Hv. rewrite forallb_forall in H.
-  specialize (H (Z.to_nat (v - lo))).
-  replace (lo + Z.of_nat (Z.to_nat (v - lo)))%Z with v in H by lia.
-  apply H. apply in_seq. lia.
-Qed.
-
-Definition alts_of (i : item) : list (list cc) :=
-  match i with IField a => a | ILit _ => [] end.
-
-Lemma field_m_ok v : (1 <= v <= 12)%Z -> field2_ok (alts_of f_m) v = true.
-Proof. intros H. apply (range_check (field2_ok (alts_of f_m)) 1 12); [vm_compute; reflexivity|lia]. Qed.
-Lemma field_d_ok v : (1 <= v <= 31)%Z -> field2_ok (alts_of f_d) v = true.
-Proof. intros H. apply (range_check (field2_ok (alts_of f_d)) 1 31); [vm_compute; reflexivity|lia]. Qed.
-Lemma field_H_ok v : (0 <= v <= 23)%Z -> field2_ok (alts_of f_H) v = true.
-Proof. intros H. apply (range_check (field2_ok (alts_of f_H)) 0 24); [vm_compute; reflexivity|lia]. Qed.
-Lemma field_M_ok v : (0 <= v <= 59)%Z -> field2_ok (alts_of f_M) v = true.
-Proof. intros H. apply (range_check (field2_ok (alts_of f_M)) 0 60); [vm_compute; reflexivity|lia]. Qed.
-Lemma field_S_ok v : (0 <= v <= 59)%Z -> field2_ok (alts_of f_S) v = true.
-Proof. intros H. apply (range_check (field2_ok (alts_of f_S)) 0 60); [vm_compute; reflexivity|lia]. Qed.
-
-Lemma match_field_Y y p' rest caps r : (0 <= y <= 9999)%Z ->
-  match_pat p' rest = Some (caps, r) ->
-  match_pat (f_Y :: p') (pad4 y ++ rest) = Some (pad4 y :: caps, r).
-Proof.
-  intros H K. unfold f_Y. cbn [match_pat]. apply try_alts_first with (r0 := rest); auto.
-  unfold pad4. cbn [first_alt match_alt app cc_match].
-  rewrite !digit_char_udigit by lia. reflexivity.
-Qed.
-
-Lemma match_lit k c p' s : cc_match k c = true ->
-  match_pat (ILit k :: p') (c :: s) = match_pat p' s.
-Proof. intros H. cbn [match_pat]. rewrite H. reflexivity. Qed.
-
-(** Ranges of a valid date-time. *)
 Lemma valid_dt_bounds t : valid_datetime t = true ->
   (1 <= dt_month t <= 12 /\ 1 <= dt_day t <= 31 /\ 0 <= dt_hour t <= 23 /\
    0 <= dt_minute t <= 59 /\ 0 <= dt_second t <= 59)%Z.
@@ -316,59 +231,6 @@ Proof.
   pose proof (dim_pos (is_leap (dt_year t)) (dt_month t)). lia.
 Qed.
 
-Section Full.
-  Variable t : datetime.
-  Hypothesis Vt : valid_datetime t = true.
-  Hypothesis Yr : (1 <= dt_year t <= 9999)%Z.
-
-  Let B := valid_dt_bounds t Vt.
-
-  Lemma match_full :
-    match_pat tmpl_full (w3c_full t) =
-    Some ([pad4 (dt_year t); pad2 (dt_month t); pad2 (dt_day t); pad2 (dt_hour t);
-           pad2 (dt_minute t); pad2 (dt_second t)], []).
-  Proof.
-    destruct B as [Bm [Bd [Bh [Bmi Bs]]]].
-    unfold tmpl_full, w3c_full, l_dash, l_colon, l_T.
-    apply match_field_Y; [lia|]. rewrite match_lit by reflexivity.
-    apply (match_field2 (alts_of f_m)); [apply field_m_ok; lia|]. rewrite match_lit by reflexivity.
-    apply (match_field2 (alts_of f_d)); [apply field_d_ok; lia|]. rewrite match_lit by reflexivity.
-    apply (match_field2 (alts_of f_H)); [apply field_H_ok; lia|]. rewrite match_lit by reflexivity.
-    apply (match_field2 (alts_of f_M)); [apply field_M_ok; lia|]. rewrite match_lit by reflexivity.
-    rewrite <- (app_nil_r (pad2 (dt_second t))).
-    apply (match_field2 (alts_of f_S)); [apply field_S_ok; lia|]. reflexivity.
-  Qed.
-
-  (** The shorter templates match a proper prefix only. *)
-  Lemma match_date_prefix rest :
-    match_pat tmpl_date (w3c_date (dt_year t) (dt_month t) (dt_day t) ++ rest) =
-    Some ([pad4 (dt_year t); pad2 (dt_month t); pad2 (dt_day t)], rest).
-  Proof.
-    destruct B as [Bm [Bd _]].
-    unfold tmpl_date, w3c_date, l_dash. rewrite <- !app_assoc. cbn [app].
-    apply match_field_Y; [lia|]. rewrite match_lit by reflexivity.
-    rewrite <- !app_assoc. cbn [app].
-    apply (match_field2 (alts_of f_m)); [apply field_m_ok; lia|]. rewrite match_lit by reflexivity.
-    apply (match_field2 (alts_of f_d)); [apply field_d_ok; lia|]. reflexivity.
-  Qed.
-
-  Lemma match_ym_prefix rest :
-    match_pat tmpl_ym (w3c_ym (dt_year t) (dt_month t) ++ rest) =
-    Some ([pad4 (dt_year t); pad2 (dt_month t)], rest).
-  Proof.
-    destruct B as [Bm _].
-    unfold tmpl_ym, w3c_ym, l_dash. rewrite <- !app_assoc. cbn [app].
-    apply match_field_Y; [lia|]. rewrite match_lit by reflexivity.
-    apply (match_field2 (alts_of f_m)); [apply field_m_ok; lia|]. reflexivity.
-  Qed.
-
-  Lemma match_y_prefix rest :
-    match_pat tmpl_y (pad4 (dt_year t) ++ rest) = Some ([pad4 (dt_year t)], rest).
-  Proof. unfold tmpl_y. apply match_field_Y; [lia|]. reflexivity. Qed.
-End Full.
-
-(** ---- strptime on the W3CDTF forms ---- *)
-
 Lemma mkDT_eta t :
   mkDT (dt_year t) (dt_month t) (dt_day t) (dt_hour t) (dt_minute t) (dt_second t) = t.
 Proof. destruct t; reflexivity. Qed.
@@ -376,139 +238,11 @@ Proof. destruct t; reflexivity. Qed.
 Lemma in_py_range_iff t : in_py_range t = true <-> (1 <= dt_year t <= 9999)%Z.
 Proof. unfold in_py_range. lia. Qed.
 
-Lemma strptime_full t : valid_datetime t = true -> (1 <= dt_year t <= 9999)%Z ->
-  strptime tmpl_full (w3c_full t) = Some t.
-Proof.
-  intros V Y. pose proof (valid_dt_bounds t V) as [Bm [Bd [Bh [Bmi Bs]]]].
-  unfold strptime. rewrite (match_full t V Y).
-  unfold nth_int. cbn [nth_error].
-  rewrite py_int_pad4 by lia. rewrite !py_int_pad2 by lia.
-  rewrite mkDT_eta, V. rewrite (proj2 (in_py_range_iff t) Y). reflexivity.
-Qed.
-
 Lemma valid_date_datetime y m d : valid_date (y, m, d) = true ->
   valid_datetime (mkDT y m d 0 0 0) = true.
 Proof. intros V. unfold valid_datetime, date_of. cbn [dt_year dt_month dt_day dt_hour dt_minute dt_second]. rewrite V. reflexivity. Qed.
 
-Lemma strptime_date y m d : valid_date (y, m, d) = true -> (1 <= y <= 9999)%Z ->
-  strptime tmpl_date (w3c_date y m d) = Some (mkDT y m d 0 0 0).
-Proof.
-  intros V Y. pose proof (valid_date_datetime y m d V) as Vt.
-  pose proof (valid_dt_bounds _ Vt) as [Bm [Bd _]].
-  cbn [dt_year dt_month dt_day dt_hour dt_minute dt_second] in *.
-  unfold strptime. rewrite <- (app_nil_r (w3c_date y m d)).
-  pose proof (match_date_prefix (mkDT y m d 0 0 0) Vt Y []) as Mp.
-  cbn [dt_year dt_month dt_day] in Mp. rewrite Mp.
-  unfold nth_int. cbn [nth_error].
-  rewrite py_int_pad4 by lia. rewrite !py_int_pad2 by lia.
-  rewrite Vt. unfold in_py_range. cbn [dt_year].
-  destruct ((1 <=? y)%Z && (y <=? 9999)%Z) eqn:E; [reflexivity|lia].
-Qed.
-
-Lemma strptime_ym y m : (1 <= m <= 12)%Z -> (1 <= y <= 9999)%Z ->
-  strptime tmpl_ym (w3c_ym y m) = Some (mkDT y m 1 0 0 0).
-Proof.
-  intros M Y.
-  assert (V : valid_date (y, m, 1%Z) = true).
-  { unfold valid_date, days_in_month. pose proof (dim_pos (is_leap y) m). lia. }
-  pose proof (valid_date_datetime y m 1%Z V) as Vt.
-  unfold strptime. rewrite <- (app_nil_r (w3c_ym y m)).
-  pose proof (match_ym_prefix (mkDT y m 1 0 0 0) Vt Y []) as Mp.
-  cbn [dt_year dt_month dt_day] in Mp. rewrite Mp.
-  unfold nth_int. cbn [nth_error].
-  rewrite py_int_pad4 by lia. rewrite !py_int_pad2 by lia.
-  rewrite Vt. unfold in_py_range. cbn [dt_year].
-  destruct ((1 <=? y)%Z && (y <=? 9999)%Z) eqn:E; [reflexivity|lia].
-Qed.
-
-Lemma strptime_y y : (1 <= y <= 9999)%Z ->
-  strptime tmpl_y (pad4 y) = Some (mkDT y 1 1 0 0 0).
-Proof.
-  intros Y.
-  assert (Vt : valid_datetime (mkDT y 1 1 0 0 0) = true) by (apply valid_date_datetime; reflexivity).
-  unfold strptime. rewrite <- (app_nil_r (pad4 y)).
-  pose proof (match_y_prefix (mkDT y 1 1 0 0 0) Y []) as Mp.
-  cbn [dt_year dt_month dt_day] in Mp. rewrite Mp.
-  unfold nth_int. cbn [nth_error].
-  rewrite py_int_pad4 by lia.
-  rewrite Vt. unfold in_py_range. cbn [dt_year].
-  destruct ((1 <=? y)%Z && (y <=? 9999)%Z) eqn:E; [reflexivity|lia].
-Qed.
-
-(** A shorter template applied to a longer form leaves text unconsumed: ValueError. *)
-Lemma strptime_leftover tmpl s caps c rest :
-  match_pat tmpl s = Some (caps, c :: rest) -> strptime tmpl s = None.
-Proof. intros H. unfold strptime. rewrite H. reflexivity. Qed.
-
-Lemma w3c_full_split t :
-  w3c_full t = w3c_date (dt_year t) (dt_month t) (dt_day t) ++
-               c_T :: pad2 (dt_hour t) ++ c_colon :: pad2 (dt_minute t) ++ c_colon :: pad2 (dt_second t).
-Proof. reflexivity. Qed.
-Lemma w3c_date_split y m d : w3c_date y m d = w3c_ym y m ++ c_dash :: pad2 d.
-Proof. reflexivity. Qed.
-Lemma w3c_ym_split y m : w3c_ym y m = pad4 y ++ c_dash :: pad2 m.
-Proof. reflexivity. Qed.
-
-Section Shorter.
-  Variable t : datetime.
-  Hypothesis Vt : valid_datetime t = true.
-  Hypothesis Yr : (1 <= dt_year t <= 9999)%Z.
-
-  Lemma strptime_date_on_full : strptime tmpl_date (w3c_full t) = None.
-  Proof. rewrite w3c_full_split. eapply strptime_leftover. apply (match_date_prefix t Vt Yr). Qed.
-
-  Lemma strptime_ym_on_full : strptime tmpl_ym (w3c_full t) = None.
-  Proof.
-    rewrite w3c_full_split, w3c_date_split, <- app_assoc. cbn [app].
-    eapply strptime_leftover. apply (match_ym_prefix t Vt Yr).
-  Qed.
-
-  Lemma strptime_y_on_full : strptime tmpl_y (w3c_full t) = None.
-  Proof.
-    rewrite w3c_full_split, w3c_date_split, w3c_ym_split, <- !app_assoc. cbn [app].
-    eapply strptime_leftover. apply (match_y_prefix t Yr).
-  Qed.
-
-  Lemma strptime_ym_on_date :
-    strptime tmpl_ym (w3c_date (dt_year t) (dt_month t) (dt_day t)) = None.
-  Proof. rewrite w3c_date_split. eapply strptime_leftover. apply (match_ym_prefix t Vt Yr). Qed.
-
-  Lemma strptime_y_on_date :
-    strptime tmpl_y (w3c_date (dt_year t) (dt_month t) (dt_day t)) = None.
-  Proof.
-    rewrite w3c_date_split, w3c_ym_split, <- !app_assoc. cbn [app].
-    eapply strptime_leftover. apply (match_y_prefix t Yr).
-  Qed.
-
-  Lemma strptime_y_on_ym : strptime tmpl_y (w3c_ym (dt_year t) (dt_month t)) = None.
-  Proof. rewrite w3c_ym_split. eapply strptime_leftover. apply (match_y_prefix t Yr). Qed.
-End Shorter.
-
-(** ---- _parse_W3CDTF_to_datetime ---- *)
-
-Lemma firstn_full t z : firstn 19 (w3c_full t ++ z) = w3c_full t.
-Proof. reflexivity. Qed.
-Lemma skipn_full t z : skipn 19 (w3c_full t ++ z) = z.
-Proof. reflexivity. Qed.
-
-Lemma templates_on_full t : valid_datetime t = true -> (1 <= dt_year t <= 9999)%Z ->
-  fold_left (fun acc tm => match strptime tm (w3c_full t) with Some x => Some x | None => acc end)
-            templates None = Some t.
-Proof.
-  intros V Y. unfold templates. cbn [fold_left].
-  rewrite (strptime_full t V Y), (strptime_date_on_full t V Y), (strptime_ym_on_full t V Y),
-          (strptime_y_on_full t Y). reflexivity.
-Qed.
-
-(** Complete date plus time, followed by anything that is not six characters long
-    (nothing, Z, a fraction with Z ...): the wall-clock time as written. *)
-Lemma parse_full_other t z : valid_datetime t = true -> (1 <= dt_year t <= 9999)%Z ->
-  length z <> 6%nat -> parse_w3cdtf (w3c_full t ++ z) = Ok t.
-Proof.
-  intros V Y L. unfold parse_w3cdtf. rewrite firstn_full, skipn_full.
-  rewrite (templates_on_full t V Y).
-  destruct (Nat.eqb_spec (length z) 6); [contradiction|reflexivity].
-Qed.
+(** ---- _offset_dt ---- *)
 
 Lemma offset_dt_spec t neg hh mm : (0 <= hh <= 99)%Z -> (0 <= mm <= 99)%Z ->
   offset_dt t (off_str neg hh mm) =
@@ -530,30 +264,184 @@ Proof.
     reflexivity.
 Qed.
 
-Lemma parse_full_offset t neg hh mm : valid_datetime t = true -> (1 <= dt_year t <= 9999)%Z ->
-  (0 <= hh <= 99)%Z -> (0 <= mm <= 99)%Z ->
-  parse_w3cdtf (w3c_full t ++ off_str neg hh mm) =
-  let r := add_seconds t (- off_seconds neg hh mm) in
-  if in_py_range r then Ok r else Err OverflowErr.
+(** ---- the W3CDTF pattern ---- *)
+
+Lemma two_ud_pad v : (0 <= v <= 99)%Z ->
+  two_ud (digit_char (v / 10)) (digit_char (v mod 10)) = Some v.
 Proof.
-  intros V Y H M. unfold parse_w3cdtf. rewrite firstn_full, skipn_full.
-  rewrite (templates_on_full t V Y).
-  change (Nat.eqb (length (off_str neg hh mm)) 6) with true. cbv iota.
-  apply offset_dt_spec; auto.
+  intros H. unfold two_ud. rewrite !digit_char_val by lia. f_equal. lia.
+Qed.
+
+Lemma at_end_cons c r : (c =? 10)%N = false -> at_end (c :: r) = false.
+Proof. intros H. cbn [at_end]. rewrite H. reflexivity. Qed.
+
+Definition zone_off (z : zone) : option str :=
+  match z with ZOff n h m => Some (off_str n h m) | _ => None end.
+
+Lemma tz_end_zone z : zone_ok z -> tz_end (zone_str z) = Some (zone_off z).
+Proof.
+  destruct z as [| |neg hh mm]; [reflexivity|reflexivity|].
+  intros [H M]. unfold zone_str, zone_off, off_str, pad2, tz_end. cbn [app].
+  destruct neg.
+  - rewrite at_end_cons by reflexivity.
+    change ((c_dash =? 90)%N) with false. change ((c_dash =? 43)%N) with false.
+    change ((c_dash =? 45)%N) with true. change ((c_colon =? 58)%N) with true.
+    cbv beta iota. cbn [orb]. cbv beta iota.
+    rewrite !digit_char_udigit by lia. reflexivity.
+  - rewrite at_end_cons by reflexivity.
+    change ((c_plus =? 90)%N) with false. change ((c_plus =? 43)%N) with true.
+    change ((c_colon =? 58)%N) with true.
+    cbv beta iota. cbn [orb]. cbv beta iota.
+    rewrite !digit_char_udigit by lia. reflexivity.
+Qed.
+
+(** The first character of a zone designator is neither a digit nor a dot nor a colon. *)
+Lemma zone_hd z :
+  match zone_str z with
+  | [] => True
+  | c :: _ => is_udigit c = false /\ (c =? 46)%N = false /\ (c =? 58)%N = false
+  end.
+Proof. destruct z as [| |[|] hh mm]; cbn [zone_str off_str]; auto; repeat split; vm_compute; reflexivity. Qed.
+
+Lemma frac_tz_end_zone z : zone_ok z -> frac_tz_end (zone_str z) = Some (zone_off z).
+Proof.
+  intros Z. rewrite <- (tz_end_zone z Z). unfold frac_tz_end.
+  pose proof (zone_hd z) as H. destruct (zone_str z) as [|c r]; [reflexivity|].
+  destruct H as [_ [H _]]. rewrite H. reflexivity.
+Qed.
+
+Lemma is_digit_udigit c : is_digit c = true -> is_udigit c = true.
+Proof. intros H. unfold is_udigit. rewrite udigit_ascii by auto. reflexivity. Qed.
+
+Lemma frac_tz_end_frac f z : f <> [] -> forallb is_digit f = true -> zone_ok z ->
+  frac_tz_end (46%N :: f ++ zone_str z) = Some (zone_off z).
+Proof.
+  intros Hne Hd Z. unfold frac_tz_end. change ((46 =? 46)%N) with true. cbn [andb].
+  assert (Hu : forallb is_udigit f = true).
+  { rewrite forallb_forall in *. intros x Hx. apply is_digit_udigit; auto. }
+  assert (Hh : match zone_str z with [] => true | x :: _ => negb (is_udigit x) end = true).
+  { pose proof (zone_hd z) as H. destruct (zone_str z) as [|c r]; auto. destruct H as [H _]. rewrite H. reflexivity. }
+  rewrite take_while_app_hd, drop_while_app_hd by auto.
+  destruct f as [|x f]; [congruence|]. cbn [is_nil negb]. apply tz_end_zone; auto.
+Qed.
+
+Lemma sec_part_none z : zone_ok z -> sec_part (zone_str z) = Some (0%Z, zone_off z).
+Proof.
+  intros Z. pose proof (tz_end_zone z Z) as T. pose proof (zone_hd z) as H.
+  unfold sec_part. destruct (zone_str z) as [|c [|a [|b r]]]; try (rewrite T; reflexivity).
+  destruct H as [_ [_ H]]. rewrite H, T. reflexivity.
+Qed.
+
+Lemma sec_part_sec v tail : (0 <= v <= 99)%Z ->
+  sec_part (c_colon :: pad2 v ++ tail) =
+  match frac_tz_end tail with Some z => Some (v, z) | None => None end.
+Proof.
+  intros H. unfold pad2. cbn [app]. unfold sec_part.
+  change ((c_colon =? 58)%N) with true. cbv beta iota. rewrite two_ud_pad by auto. reflexivity.
+Qed.
+
+Lemma after_day_end y mo dd : after_day y mo dd [] = Some (mkDT y mo dd 0 0 0, None).
+Proof. reflexivity. Qed.
+
+Lemma after_day_time y mo dd hh mi r4 : (0 <= hh <= 99)%Z -> (0 <= mi <= 99)%Z ->
+  after_day y mo dd (c_T :: pad2 hh ++ c_colon :: pad2 mi ++ r4) =
+  match sec_part r4 with Some (sec, z) => Some (mkDT y mo dd hh mi sec, z) | None => None end.
+Proof.
+  intros H M. unfold pad2. cbn [app]. unfold after_day.
+  rewrite at_end_cons by reflexivity.
+  change ((c_T =? 84)%N) with true. change ((c_colon =? 58)%N) with true. cbn [andb]. cbv beta iota.
+  rewrite !two_ud_pad by auto. destruct (sec_part r4) as [[sec z]|]; reflexivity.
+Qed.
+
+Lemma after_month_end y mo : after_month y mo [] = Some (mkDT y mo 1 0 0 0, None).
+Proof. reflexivity. Qed.
+
+Lemma after_month_day y mo dd r3 : (0 <= dd <= 99)%Z ->
+  after_month y mo (c_dash :: pad2 dd ++ r3) = after_day y mo dd r3.
+Proof.
+  intros H. unfold pad2. cbn [app]. unfold after_month.
+  rewrite at_end_cons by reflexivity. change ((c_dash =? 45)%N) with true. cbv beta iota.
+  rewrite two_ud_pad by auto. reflexivity.
+Qed.
+
+Lemma after_year_end y : after_year y [] = Some (mkDT y 1 1 0 0 0, None).
+Proof. reflexivity. Qed.
+
+Lemma after_year_month y mo r2 : (0 <= mo <= 99)%Z ->
+  after_year y (c_dash :: pad2 mo ++ r2) = after_month y mo r2.
+Proof.
+  intros H. unfold pad2. cbn [app]. unfold after_year.
+  rewrite at_end_cons by reflexivity. change ((c_dash =? 45)%N) with true. cbv beta iota.
+  rewrite two_ud_pad by auto. reflexivity.
+Qed.
+
+Lemma groups_year y r1 : (0 <= y <= 9999)%Z -> w3c_groups (pad4 y ++ r1) = after_year y r1.
+Proof.
+  intros H. unfold pad4. cbn [app]. unfold w3c_groups.
+  rewrite !digit_char_val by lia. f_equal. lia.
+Qed.
+
+(** ---- _parse_W3CDTF_to_datetime on the W3CDTF forms ---- *)
+
+Lemma w3c_full_split t :
+  w3c_full t = w3c_date (dt_year t) (dt_month t) (dt_day t) ++
+               c_T :: pad2 (dt_hour t) ++ c_colon :: pad2 (dt_minute t) ++ c_colon :: pad2 (dt_second t).
+Proof. reflexivity. Qed.
+
+Lemma parse_of_groups s t z : w3c_groups s = Some (t, z) ->
+  valid_datetime t = true -> (1 <= dt_year t <= 9999)%Z ->
+  parse_w3cdtf s = match z with None => Ok t | Some off => offset_dt t off end.
+Proof.
+  intros G V Y. unfold parse_w3cdtf. rewrite G, V, (proj2 (in_py_range_iff t) Y). reflexivity.
+Qed.
+
+Lemma utc_of_zone t z : zone_ok z ->
+  match zone_off z with None => Ok t | Some off => offset_dt t off end = utc_of t z.
+Proof.
+  destruct z as [| |neg hh mm]; try reflexivity. intros [H M].
+  cbn [zone_off utc_of]. apply offset_dt_spec; auto.
+Qed.
+
+Lemma groups_date_prefix y m d r3 : (0 <= y <= 9999)%Z -> (0 <= m <= 99)%Z -> (0 <= d <= 99)%Z ->
+  w3c_groups (w3c_date y m d ++ r3) = after_day y m d r3.
+Proof.
+  intros Y M D. unfold w3c_date. rewrite <- !app_assoc. cbn [app].
+  rewrite groups_year by auto. rewrite <- app_assoc. cbn [app].
+  rewrite after_year_month by auto. rewrite after_month_day by auto. reflexivity.
+Qed.
+
+Ltac norm_app := repeat (progress (cbn [app]; rewrite <- ?app_assoc)).
+
+(** Any time granularity followed by any zone designator. *)
+Lemma parse_time g t z : valid_datetime t = true -> (1 <= dt_year t <= 9999)%Z ->
+  form_ok g t -> zone_ok z ->
+  parse_w3cdtf (time_text g t ++ zone_str z) = utc_of t z.
+Proof.
+  intros V Y F Z. pose proof (valid_dt_bounds t V) as [Bm [Bd [Bh [Bmi Bs]]]].
+  rewrite <- (utc_of_zone t z Z). apply parse_of_groups; auto.
+  destruct g as [| |f]; cbn [time_text form_ok] in *.
+  - unfold w3c_min. rewrite <- !app_assoc. rewrite groups_date_prefix by lia.
+    norm_app.
+    rewrite after_day_time by lia. rewrite sec_part_none by auto.
+    rewrite <- F. rewrite mkDT_eta. reflexivity.
+  - rewrite w3c_full_split. rewrite <- !app_assoc. rewrite groups_date_prefix by lia.
+    norm_app.
+    rewrite after_day_time by lia. rewrite sec_part_sec by lia.
+    rewrite frac_tz_end_zone by auto. rewrite mkDT_eta. reflexivity.
+  - destruct F as [Fn Fd].
+    rewrite w3c_full_split. rewrite <- !app_assoc. rewrite groups_date_prefix by lia.
+    norm_app.
+    rewrite after_day_time by lia. rewrite sec_part_sec by lia.
+    rewrite frac_tz_end_frac by auto. rewrite mkDT_eta. reflexivity.
 Qed.
 
 Lemma parse_date y m d : valid_date (y, m, d) = true -> (1 <= y <= 9999)%Z ->
   parse_w3cdtf (w3c_date y m d) = Ok (mkDT y m d 0 0 0).
 Proof.
   intros V Y. pose proof (valid_date_datetime y m d V) as Vt.
-  unfold parse_w3cdtf.
-  change (firstn 19 (w3c_date y m d)) with (w3c_date y m d).
-  change (skipn 19 (w3c_date y m d)) with (@nil N).
-  unfold templates. cbn [fold_left].
-  rewrite (strptime_date y m d V Y).
-  pose proof (strptime_ym_on_date (mkDT y m d 0 0 0) Vt Y) as E1.
-  pose proof (strptime_y_on_date (mkDT y m d 0 0 0) Y) as E2.
-  cbn [dt_year dt_month dt_day] in E1, E2. rewrite E1, E2. reflexivity.
+  pose proof (valid_dt_bounds _ Vt) as [Bm [Bd _]]. cbn [dt_month dt_day] in *.
+  rewrite (parse_of_groups _ (mkDT y m d 0 0 0) None); auto.
+  rewrite <- (app_nil_r (w3c_date y m d)). rewrite groups_date_prefix by lia. reflexivity.
 Qed.
 
 Lemma parse_ym y m : (1 <= m <= 12)%Z -> (1 <= y <= 9999)%Z ->
@@ -563,35 +451,27 @@ Proof.
   assert (V : valid_date (y, m, 1%Z) = true).
   { unfold valid_date, days_in_month. pose proof (dim_pos (is_leap y) m). lia. }
   pose proof (valid_date_datetime y m 1%Z V) as Vt.
-  unfold parse_w3cdtf.
-  change (firstn 19 (w3c_ym y m)) with (w3c_ym y m).
-  change (skipn 19 (w3c_ym y m)) with (@nil N).
-  unfold templates. cbn [fold_left].
-  pose proof (strptime_y_on_ym (mkDT y m 1 0 0 0) Y) as E1.
-  cbn [dt_year dt_month dt_day] in E1. rewrite (strptime_ym y m M Y), E1. reflexivity.
+  rewrite (parse_of_groups _ (mkDT y m 1 0 0 0) None); auto.
+  unfold w3c_ym. rewrite groups_year by lia.
+  rewrite <- (app_nil_r (pad2 m)). rewrite after_year_month by lia. reflexivity.
 Qed.
 
 Lemma parse_y y : (1 <= y <= 9999)%Z -> parse_w3cdtf (pad4 y) = Ok (mkDT y 1 1 0 0 0).
 Proof.
-  intros Y. unfold parse_w3cdtf.
-  change (firstn 19 (pad4 y)) with (pad4 y).
-  change (skipn 19 (pad4 y)) with (@nil N).
-  unfold templates. cbn [fold_left].
-  rewrite (strptime_y y Y). reflexivity.
+  intros Y.
+  assert (Vt : valid_datetime (mkDT y 1 1 0 0 0) = true) by (apply valid_date_datetime; reflexivity).
+  rewrite (parse_of_groups _ (mkDT y 1 1 0 0 0) None); auto.
+  rewrite <- (app_nil_r (pad4 y)). rewrite groups_year by lia. reflexivity.
 Qed.
 
-(** strftime for years from 1000 is the four-digit form followed by Z. *)
-Lemma strftime_full t : (1000 <= dt_year t <= 9999)%Z -> strftime t = w3c_full t ++ [c_Z].
-Proof.
-  intros Y. unfold strftime, w3c_full. rewrite show_year_pad4 by auto.
-  rewrite <- !app_assoc. cbn [app]. reflexivity.
-Qed.
+(** The text the setter writes is the seconds form followed by Z. *)
+Lemma fmt_dt_full t : fmt_dt t = w3c_full t ++ [c_Z].
+Proof. unfold fmt_dt, w3c_full. rewrite <- !app_assoc. cbn [app]. rewrite <- !app_assoc. reflexivity. Qed.
 
-Lemma parse_strftime t : valid_datetime t = true -> (1000 <= dt_year t <= 9999)%Z ->
-  parse_w3cdtf (strftime t) = Ok t.
+Lemma parse_fmt t : valid_datetime t = true -> (1 <= dt_year t <= 9999)%Z ->
+  parse_w3cdtf (fmt_dt t) = Ok t.
 Proof.
-  intros V Y. rewrite strftime_full by auto.
-  apply parse_full_other; auto; [lia|discriminate].
+  intros V Y. rewrite fmt_dt_full. apply (parse_time TSec t ZUtc); cbn; auto.
 Qed.
 
 (** ---- the element as an association list ---- *)
